@@ -56,6 +56,9 @@ def run(ctx):
         res.error('anchor lost: ir::Instr / generated Visit impls')
         return res
     ev = Evaluator(F, Policy(effects=[HOOK_RE]))
+    # the same dispatch with every per-instruction hook treated as overridden by the user (opaque, does nothing we know of):
+    # operand reports must not live in the default hook bodies
+    ev_over = Evaluator(F, Policy(effects=[HOOK_RE], inline=lambda p: not (p.startswith('ir::Visitor::') or p.startswith('ir::VisitorMut::'))))
     n_fields = 0
     for var in instr['variants']:
         name = var['name']
@@ -77,6 +80,17 @@ def run(ctx):
                 res.bad('%s/%s/shape' % (name, tag), 'dispatch for %s is not a single straight path (%d worlds)' % (name, len(ws)))
                 continue
             effs = [e for e in ws[0].trace if e['kind'] == 'call']
+            try:
+                ws2 = ev_over.run_fn(fn, [val, sym('visitor')])
+                effs2 = [e for e in ws2[0].trace if e['kind'] == 'call'] if len(ws2) == 1 else None
+            except EvalError:
+                effs2 = None
+            sig = lambda es: sorted((e['callee'], show(e['args'][1])) for e in es)
+            if effs2 is None or sig(effs2) != sig(effs):
+                res.bad('%s/%s/depends-on-default-hook' % (name, tag),
+                        'the operands of %s are reported %s when the per-instruction hook is overridden (%d reports instead of %d): '
+                        'operand reporting must not live in the default hook bodies'
+                        % (name, 'differently' if effs2 is not None else 'in an unanalysable way', len(effs2 or []), len(effs)))
             used = [False] * len(effs)
             for path, kind in pos:
                 n_fields += 1
